@@ -12,7 +12,7 @@ From Verif Require Import Base Link LinkProofs LinkInv16 LinkInvB LinkInvT LinkP
 Theorem read_failure_ends_link :
   forall calls s n,
     tget (threads s) TResLoop = Some RLReading ->
-    exists s', step_env calls s (EFailReadRes n) = Some s' /\ bclosed s' = true /\ tbl s' = [] /\
+    exists s', step_env fixed calls s (EFailReadRes n) = Some s' /\ bclosed s' = true /\ tbl s' = [] /\
                tget (threads s') TResLoop = Some (SetErrMid (EInj n) KLoop).
 Proof.
   intros calls s n Hr. unfold step_env. rewrite Hr. eexists; split; [reflexivity|].
@@ -25,21 +25,21 @@ Theorem late_calls_fail_fast :
   forall calls s i cs,
     bclosed s = true -> tget (threads s) (TCall i) = None -> nth_error calls i = Some cs ->
     f_marshal (flt s) = None ->
-    exists s', step_env calls s (EStart i) = Some s' /\
-               tget (threads s') (TCall i) = Some (SetErrMid EClosed (KReturn EClosed)) /\
-               evs s' = evs s /\ ~ In i (closures s').
+    exists s', step_env fixed calls s (EStart i) = Some s' /\
+               tget (threads s') (TCall i) = Some (CReturned zero (Some EClosed)) /\
+               evs s' = EvReturn i zero (Some EClosed) :: evs s /\ fatal s' = fatal s /\ ~ In i (closures s').
 Proof.
   intros calls s i cs Hb Ht Hn Hf. unfold step_env. rewrite Ht, Hn.
-  assert (G : forall s0, bclosed s0 = true -> f_marshal (flt s0) = None -> evs s0 = evs s ->
+  assert (G : forall s0, bclosed s0 = true -> f_marshal (flt s0) = None -> evs s0 = evs s -> fatal s0 = fatal s ->
               exists s', match take_fault s0 2 with
                          | (Some x, s1) => Some (caller_panic calls s1 i (EInj x))
-                         | (None, s1) => if bclosed s1 then Some (caller_panic calls s1 i EClosed) else None
+                         | (None, s1) => if bclosed s1 then Some (caller_return s1 i zero (Some EClosed)) else None
                          end = Some s' /\
-                         tget (threads s') (TCall i) = Some (SetErrMid EClosed (KReturn EClosed)) /\
-                         evs s' = evs s /\ ~ In i (closures s')).
-  { intros s0 Hb0 Hf0 He0. unfold take_fault. rewrite Hf0. simpl. rewrite Hb0.
-    eexists; split; [reflexivity|]. unfold caller_panic, begin_seterr, wake, setT, do_close, with_closures; simpl.
-    split; [rewrite tget_map_wake_gen, tget_tset_same; reflexivity|]. split; [exact He0|].
+                         tget (threads s') (TCall i) = Some (CReturned zero (Some EClosed)) /\
+                         evs s' = EvReturn i zero (Some EClosed) :: evs s /\ fatal s' = fatal s /\ ~ In i (closures s')).
+  { intros s0 Hb0 Hf0 He0 Hfa. unfold take_fault. rewrite Hf0. simpl. rewrite Hb0.
+    eexists; split; [reflexivity|]. unfold caller_return, setT, with_closures, with_ev; simpl.
+    split; [apply tget_tset_same|]. split; [rewrite He0; reflexivity|]. split; [exact Hfa|].
     unfold remove_nat. intros Hin. apply filter_In in Hin as [_ Hin]. rewrite Nat.eqb_refl in Hin. discriminate. }
   destruct (c_closure cs).
   - destruct (G (with_closures s (i :: closures s))) as (s' & H1 & H2); auto.
@@ -88,12 +88,15 @@ Theorem every_started_call_returns :
 Proof. exact started_call_returns_lemma. Qed.
 Print Assumptions every_started_call_returns.
 
-(* ... and a call made afterwards fails in its first step, registering nothing and writing nothing *)
+(* ... and a call made afterwards fails in its first step, registering, writing and reporting nothing
+   (only a failing marshal of its own arguments can still be reported) *)
 Theorem call_after_end_fails :
   forall calls s i cs0,
     lreachable fixed calls s -> bclosed s = true -> tget (threads s) (TCall i) = None -> nth_error calls i = Some cs0 ->
-    exists s1, lstep fixed calls s (Env (EStart i)) 0 = Some s1 /\
-               exists e, tget (threads s1) (TCall i) = Some (SetErrMid e (KReturn e)) /\ tbl s1 = [] /\ evs s1 = evs s.
+    exists s1, lstep fixed calls s (Env (EStart i)) 0 = Some s1 /\ tbl s1 = [] /\
+               ((exists x, tget (threads s1) (TCall i) = Some (SetErrMid (EInj x) (KReturn (EInj x))) /\ evs s1 = evs s) \/
+                (tget (threads s1) (TCall i) = Some (CReturned zero (Some EClosed)) /\
+                 evs s1 = EvReturn i zero (Some EClosed) :: evs s /\ fatal s1 = fatal s)).
 Proof. exact call_after_end_fails_lemma. Qed.
 Print Assumptions call_after_end_fails.
 
